@@ -285,8 +285,9 @@ func Load(ctx context.Context, wd string, env []string, tags string, patterns []
 			}
 			pset := item.(*ProviderSet)
 			// pset.Name may not equal name, since it could be an alias to
-			// another provider set.
-			id := ProviderSetID{ImportPath: pset.PkgPath, VarName: name}
+			// another provider set; that set may be declared in another package,
+			// so the ID takes the path of the package declaring this variable.
+			id := ProviderSetID{ImportPath: obj.Pkg().Path(), VarName: name}
 			info.Sets[id] = pset
 		}
 		for _, f := range pkg.Syntax {
